@@ -432,8 +432,19 @@ def k6(chk, repo):
                 chk.ok("K6", key, c.where, "no input-valued selection")
 
 
+def k7(chk, repo):
+    """The right-hand side and the reported displacements are rebuilt from scratch on every
+    evaluation (shared with C03-R7): a load left over from a previous load case breaks
+    linearity and reciprocity of the response."""
+    from .c03 import r7
+    from .common import all_models
+
+    r7(chk, repo, all_models(repo, chk), rule="K7", only=("CreateRHS", "Disp"), min_decided=2)
+
+
 def run(chk, repo, tier):
     k6(chk, repo)
+    k7(chk, repo)
     k1(chk, repo)
     k2(chk, repo)
     k3(chk, repo)
